@@ -1,10 +1,17 @@
 /* C09 harness: bytecode words of a function and of (asm (disasm f)).
  * stdin: one janet expression per line, prefixed "A " (assemble / compile only) or "R " (also run original and
  * reassembled function on a fixed argument set and compare).  stdout, one line each:
- *   ok <words f> <words g> |D <disasm>   words = idx:hex,… of the non-zero words; nested funcdefs follow after '/';
+ *   ok <words f> <words g> |H <hdr f> <hdr g> |D <disasm>
+ *                                 words = idx:hex,… of the non-zero words; nested funcdefs follow after '/';
+ *                                 hdr = per funcdef (same order, '/'-separated) the fields janet_verify reads:
+ *                                   vararg,structarg,arity,min,max,slotcount,nconsts,ndefs,nenvs;birth:death:slot,…;k:code,…
+ *                                   (last part: return code of the real janet_verify on a copy of the funcdef whose
+ *                                   slot count is k, for k around the slot count and the parameter count)
  *                                 disasm = (disasm f :bytecode) of the outer funcdef: mnemonic,arg,…;… ('!' = bracket tuple)
+ * prefix "V " = like "R " but original and reassembled function are applied to argument lists of length 0..4 and to
+ * keyword arguments (parameter lists with &opt / & / &keys / &named).
  *   err1 <message>                the expression itself failed (e.g. the assembler rejected the description)
- *   err2 <words f> <message>      (asm (disasm f)) failed
+ *   err2 <words f> |H <hdr f> | <message>      (asm (disasm f)) failed
  *   beh <words f> <detail>        behaviour of f and g differs */
 #include <janet.h>
 #include <stdio.h>
@@ -27,6 +34,31 @@ static void dump_def(JanetFuncDef *def) {
     }
 }
 
+static void dump_hdr(JanetFuncDef *def) {
+    int va = !!(def->flags & JANET_FUNCDEF_FLAG_VARARG);
+    printf("%d,%d,%d,%d,%d,%d,%d,%d,%d;", va, !!(def->flags & JANET_FUNCDEF_FLAG_STRUCTARG),
+           def->arity, def->min_arity, def->max_arity, def->slotcount, def->constants_length, def->defs_length, def->environments_length);
+    for (int32_t i = 0; i < def->symbolmap_length; i++)
+        printf("%s%u:%u:%u", i ? "," : "", def->symbolmap[i].birth_pc, def->symbolmap[i].death_pc, def->symbolmap[i].slot_index);
+    if (!def->symbolmap_length) printf("-");
+    printf(";");
+    int32_t ks[] = { def->slotcount, def->slotcount - 1, def->slotcount - 2, def->slotcount + 1, def->arity + va, def->arity + va - 1, def->arity, 0, 255, 256, 0x1000000, 0x1000001 };
+    int nk = (int)(sizeof(ks) / sizeof(ks[0]));
+    if (def->bytecode_length > 3000) nk = 1;
+    for (int k = 0; k < nk; k++) {
+        int dup = 0;
+        for (int j = 0; j < k; j++) if (ks[j] == ks[k]) dup = 1;
+        if (dup || ks[k] < -1) continue;
+        JanetFuncDef tmp = *def;
+        tmp.slotcount = ks[k];
+        printf("%s%d:%d", k ? "," : "", ks[k], janet_verify(&tmp));
+    }
+    for (int32_t i = 0; i < def->defs_length; i++) {
+        printf("/");
+        dump_hdr(def->defs[i]);
+    }
+}
+
 static void clean(const uint8_t *s, int32_t n) {
     for (int32_t i = 0; i < n; i++) putchar((s[i] > 32 && s[i] < 127) ? s[i] : '_');
 }
@@ -35,13 +67,19 @@ static const char *prelude =
     "(def __args [0 1 -1 2 127 -127 -128 -129 128 255 256 32767 -32767 -32768 -32769 32768 1000000 -1000000 0.5 -128.5])\n"
     "(defn __run [f x] (def [ok r] (protect (f x))) [ok (if ok (if (function? r) :function r) (string r))])\n"
     "(defn __dis [f] (string/join (map (fn [t] (if (tuple? t) (string (if (= (tuple/type t) :brackets) \"!\" \"\") (string/join (map string t) \",\")) (string \"raw,\" t))) (disasm f :bytecode)) \";\"))\n"
+    "(def __argsets [[] [0] [1 2] [1 2 3] [1 2 3 4] [1 :x 2] [:x 1 :y 2] [1 :x 2 :y 3] [1 2 :x 3 :k 4] [[5 6] 7 8] [{:k 9} 3] [nil nil nil] [[1 2] :k 1]])\n"
+    "(defn __noaddr [r] (string/join (peg/match ~(any (+ (* (<- \"0x\") (some :h)) (<- 1))) (string r))))\n"
+    "(defn __q [r] (__noaddr (string/format \"%q\" r)))\n"
+    "(defn __runv [f] (map (fn [as] (def [ok r] (protect (apply f as))) [ok (if (and ok (function? r)) (let [[ok2 r2] (protect (r))] [:function ok2 (__q r2)]) (__q r))]) __argsets))\n"
     "(defn __rt [run thunk]\n"
     "  (def [ok f] (protect (thunk)))\n"
     "  (if (not ok) [:err1 (string f)]\n"
     "    (let [[ok2 g] (protect (asm (disasm f)))]\n"
     "      (if (not ok2) [:err2 (string g) f]\n"
     "        (do (var bad nil)\n"
-    "          (when run (each x __args (def a (__run f x)) (def b (__run g x))\n"
+    "          (when (= run :v) (def a (__runv f)) (def b (__runv g))\n"
+    "            (unless (deep= a b) (set bad (string/format \"argument lists %q: %q vs %q\" __argsets a b))))\n"
+    "          (when (= run true) (each x __args (def a (__run f x)) (def b (__run g x))\n"
     "            (unless (or (deep= a b) (and (number? (a 1)) (number? (b 1)) (nan? (a 1)) (nan? (b 1)))) (set bad (string/format \"arg %q: %q vs %q\" x a b)))))\n"
     "          (if bad [:beh bad f] [:ok f g (__dis f)]))))))\n";
 
@@ -56,9 +94,10 @@ int main(void) {
         while (n > 0 && (line[n-1] == '\n' || line[n-1] == '\r')) line[--n] = 0;
         if (n < 3) { printf("bad-op\n"); continue; }
         int run = line[0] == 'R';
+        int runv = line[0] == 'V';
         size_t len = (size_t) n + 64;
         char *buf = malloc(len);
-        snprintf(buf, len, "(__rt %s (fn [] %s))", run ? "true" : "false", line + 2);
+        snprintf(buf, len, "(__rt %s (fn [] %s))", runv ? ":v" : run ? "true" : "false", line + 2);
         int st = janet_dostring(env, buf, "case", &out);
         free(buf);
         if (st || !janet_checktype(out, JANET_TUPLE)) { printf("err1 expression-did-not-evaluate\n"); continue; }
@@ -69,6 +108,10 @@ int main(void) {
             dump_def(janet_unwrap_function(t[1])->def);
             printf(" ");
             dump_def(janet_unwrap_function(t[2])->def);
+            printf(" |H ");
+            dump_hdr(janet_unwrap_function(t[1])->def);
+            printf(" ");
+            dump_hdr(janet_unwrap_function(t[2])->def);
             if (janet_tuple_length(t) > 3 && janet_checktype(t[3], JANET_STRING)) {
                 const uint8_t *d = janet_unwrap_string(t[3]);
                 printf(" |D ");
@@ -81,7 +124,10 @@ int main(void) {
         } else {
             const uint8_t *m = janet_unwrap_string(t[1]);
             printf("%s ", (const char *) tag);
-            if (janet_checktype(t[2], JANET_FUNCTION)) dump_def(janet_unwrap_function(t[2])->def); else printf("?");
+            if (janet_checktype(t[2], JANET_FUNCTION)) {
+                dump_def(janet_unwrap_function(t[2])->def);
+                if (!strcmp((const char *) tag, "err2")) { printf(" |H "); dump_hdr(janet_unwrap_function(t[2])->def); printf(" |"); }
+            } else printf("?");
             printf(" "); clean(m, janet_string_length(m)); printf("\n");
         }
         fflush(stdout);
